@@ -82,16 +82,25 @@ def cases(tier, seed, info):
                     for clean in (True, False):
                         out.append(dict(mode='json', fault='none', err='', pos='-', entry=entry, clean=clean, hex=False,
                                         pel=p, data=data, hidden=encode.encode(hidden), namelen=namelen, place=place))
+        # what an earlier, interrupted run left under the result's name: nothing of use, but newer than the log
+        for leftover in ('empty', 'half', 'notjson', 'other'):
+            for entry in ('func', 'main'):
+                for clean in (True, False):
+                    for fault in ('none', 'open', 'close'):
+                        out.append(dict(mode='json', fault=fault, err='EIO', pos='-', entry=entry, clean=clean, hex=False,
+                                        pel=p, data=data, hidden=encode.encode(hidden), leftover=leftover))
         for m in ('json', 'file'):
             for pt_ in CRASH_POINTS[m]:
                 out.append(dict(kind='crash', mode=m, point=pt_, pel=p, data=data))
         for lim in ('zero', 'one', 'hundred', 'half', 'minus1', 'exact', 'none'):
-            out.append(dict(kind='rlimit', limit=lim, pel=p, data=data))
+            for opt in (False, True):           # the interpreter as usual, and started with -O (no assert statements)
+                out.append(dict(kind='rlimit', limit=lim, pel=p, data=data, opt=opt))
         # the real process writing to a standard output that really fails: a full device, a pipe nobody reads
         for sink in ('devfull', 'closedpipe'):
             for hexm in (False, True):
                 for unbuffered in (False, True):
-                    out.append(dict(kind='sink', sink=sink, hex=hexm, unbuffered=unbuffered, pel=p, data=data))
+                    out.append(dict(kind='sink', sink=sink, hex=hexm, unbuffered=unbuffered, pel=p, data=data,
+                                    opt=(p + hexm + unbuffered) % 2 == 1))
     # behaviours of CleanWriteN (several files, every step free to fail, the process free to die) replayed
     # through the real -j -c
     # (TLC enumerates ALL of them for 3 files x 2 write calls: 2058 complete behaviours and every crashed prefix)
@@ -236,7 +245,8 @@ def _rlimit_case(case):
             'if lim >= 0: resource.setrlimit(resource.RLIMIT_FSIZE, (lim, lim))\n'
             'sys.argv = ["peltool.py", "-p", %r, "-j", "-o", %r, "-c"]\n'
             'pt.main()\n') % (os.path.join(REPO, 'modules'), limit, os.path.join(work, 'in'), os.path.join(work, 'out'))
-    p = subprocess.run(['/venv/bin/python', '-c', code], stdout=subprocess.PIPE, stderr=subprocess.PIPE, timeout=60,
+    p = subprocess.run(['/venv/bin/python'] + (['-O'] if case.get('opt') else []) + ['-c', code],
+                       stdout=subprocess.PIPE, stderr=subprocess.PIPE, timeout=60,
                        env=dict(os.environ, PYTHONDONTWRITEBYTECODE='1', PYTHONWARNINGS='ignore'))
     present = os.path.exists(in_path)
     unchanged = present and open(in_path, 'rb').read() == data
@@ -533,15 +543,16 @@ def _sink_case(case):
     env.pop('PYTHONUNBUFFERED', None)
     if case['unbuffered']:
         env['PYTHONUNBUFFERED'] = '1'
+    py = ['/venv/bin/python'] + (['-O'] if case.get('opt') else [])
     if case['sink'] == 'devfull':
         with open('/dev/full', 'w') as sink:
-            p = subprocess.run(['/venv/bin/python', '-c', code], stdout=sink, stderr=subprocess.PIPE, timeout=60, env=env)
+            p = subprocess.run(py + ['-c', code], stdout=sink, stderr=subprocess.PIPE, timeout=60, env=env)
         rc = p.returncode
     else:
         r, w = os.pipe()
         os.close(r)                                   # nobody will ever read
         try:
-            p = subprocess.run(['/venv/bin/python', '-c', code], stdout=w, stderr=subprocess.PIPE, timeout=60, env=env)
+            p = subprocess.run(py + ['-c', code], stdout=w, stderr=subprocess.PIPE, timeout=60, env=env)
         finally:
             os.close(w)
         rc = p.returncode
@@ -600,6 +611,11 @@ def run_case(case):
         plan[fault] = True
     out_dir = os.path.join(work, 'in' if case.get('place') == 'same' else 'out')
 
+    if case.get('leftover'):
+        lo = {'empty': '', 'half': expected_json[: len(expected_json) // 2], 'notjson': '\x00\x01 leftover',
+              'other': '{"Private Header": {"Entry Id": "0x00000000"}}'}[case['leftover']]
+        with open(os.path.join(out_dir, '%s.%08X.json' % (name, 0x50000100 + case['pel'])), 'w') as f:
+            f.write(lo)
     real_open, real_remove, real_unlink, real_io_open = builtins.open, os.remove, os.unlink, io.open
     opened = []
 
